@@ -541,6 +541,44 @@ func c15(c *core.Ctx) {
 	// included, is a tabled one (C05/R5) — a registrar that also panics once the server has seen a request refuses
 	// well-typed first registrations
 	c.Borrow("C05", map[string]string{"R5": "R6"}, c05)
+	// "the reported service info equals what a standard gRPC server reports": a decorating registry registers a COPY
+	// of the caller's description in which only the handlers differ — every other field (the metadata that
+	// GetServiceInfo reports) is carried over (C16/R1)
+	c.Borrow("C16", map[string]string{"R1": "R7"}, c16)
+
+	// ---------------------------------------------------------------- R8
+	if c.Rule("R8", "iteration visits every registration: the registry calls no function it was handed (the ForEach callback) while it holds a lock of its own — the usual callback registers each service with another registrar, which may be backed by the same registry type and need that lock", 1) {
+		fnsR := p.LibFuncs(".")
+		ls := core.NewLockSets(fnsR)
+		n := 0
+		for _, fn := range fnsR {
+			core.Instrs(fn, func(in ssa.Instruction) {
+				cc := core.CallOf(in)
+				if cc == nil || cc.IsInvoke() || cc.StaticCallee() != nil {
+					return
+				}
+				par, isPar := core.Strip(cc.Value).(*ssa.Parameter)
+				if !isPar || par.Parent() != fn {
+					return
+				}
+				if _, isSig := par.Type().Underlying().(*types.Signature); !isSig {
+					return
+				}
+				n++
+				held := ls.HeldAt(in)
+				k := core.FuncName(fn) + ":callback(" + par.Name() + "):no-lock-held"
+				if len(held) > 0 {
+					c.Fail(k, in.Pos(), "the callback is called with %s held: a callback that registers into a registrar backed by the same registry type needs that lock and never returns", core.HeldList(held))
+				} else {
+					c.Ok(k, in.Pos(), "the callback runs with no lock of the registry held")
+				}
+			})
+		}
+		if n == 0 {
+			c.Missing("call of a func-typed parameter in the registry (ForEach)")
+		}
+		c.EndRule()
+	}
 }
 
 // mayPanicExplicitly: fn (a module function) contains an explicit panic, or
